@@ -3,7 +3,7 @@
 
     c19 cfg=<4 bits> <n> issue*   → "<model>\t<spec>"      (an error with n issues)
     c19 cfg=<4 bits> nil          → "<model>\t<spec>"      (a nil *ZodError)
-    cfg    := which pending fixes the working tree carries (probed by the harness): treeNeg treeOther
+    cfg    := the state of the three places repaired in round 4b (the harness names cfg=1111: pinned to the code as it stands): treeNeg treeOther
               dotOther nilSafe, `1` = fixed (Model/IssuesGo.lean `Cfg`); the spec does not read it
     issue  := I <code> <npath> seg* <msg> <nbranches> branch* <nissues> issue*
     branch := <n> issue*
